@@ -260,9 +260,8 @@ func (m *BaseUndoLogManager) Undo(ctx context.Context, dbType types.DBType, xid 
 	}
 	defer func() {
 		if err != nil {
-			if err = tx.Rollback(); err != nil {
-				log.Errorf("rollback fail, xid: %s, branchID:%s err:%v", xid, branchID, err)
-				return
+			if rbErr := tx.Rollback(); rbErr != nil {
+				log.Errorf("rollback fail, xid: %s, branchID:%s err:%v", xid, branchID, rbErr)
 			}
 		}
 	}()
@@ -273,9 +272,8 @@ func (m *BaseUndoLogManager) Undo(ctx context.Context, dbType types.DBType, xid 
 		return err
 	}
 	defer func() {
-		if err = stmt.Close(); err != nil {
-			log.Errorf("stmt close fail, xid: %s, branchID:%s err:%v", xid, branchID, err)
-			return
+		if closeErr := stmt.Close(); closeErr != nil {
+			log.Errorf("stmt close fail, xid: %s, branchID:%s err:%v", xid, branchID, closeErr)
 		}
 	}()
 
@@ -285,9 +283,8 @@ func (m *BaseUndoLogManager) Undo(ctx context.Context, dbType types.DBType, xid 
 		return err
 	}
 	defer func() {
-		if err = rows.Close(); err != nil {
-			log.Errorf("rows close fail, xid: %s, branchID:%s err:%v", xid, branchID, err)
-			return
+		if closeErr := rows.Close(); closeErr != nil {
+			log.Errorf("rows close fail, xid: %s, branchID:%s err:%v", xid, branchID, closeErr)
 		}
 	}()
 
@@ -309,7 +306,9 @@ func (m *BaseUndoLogManager) Undo(ctx context.Context, dbType types.DBType, xid 
 		exists = true
 		if !record.CanUndo() {
 			log.Infof("xid %v branch %v, ignore %v undo_log", record.XID, record.BranchID, record.LogStatus)
-			return nil
+			// nothing to undo: end the transaction instead of leaving it open on the connection
+			err = tx.Commit()
+			return err
 		}
 
 		var logCtx map[string]string
@@ -333,7 +332,8 @@ func (m *BaseUndoLogManager) Undo(ctx context.Context, dbType types.DBType, xid 
 
 		sqlUndoLogs := branchUndoLog.Logs
 		if len(sqlUndoLogs) == 0 {
-			return nil
+			// an empty undo log needs no compensation; it is still deleted and the transaction ended below
+			continue
 		}
 		branchUndoLog.Reverse()
 
@@ -374,8 +374,8 @@ func (m *BaseUndoLogManager) Undo(ctx context.Context, dbType types.DBType, xid 
 	}
 
 	if err = tx.Commit(); err != nil {
-		log.Errorf("[Undo] execute on fail, err: %v", err)
-		return nil
+		log.Errorf("[Undo] commit fail, err: %v", err)
+		return err
 	}
 	return nil
 }
